@@ -7,11 +7,13 @@
      [C07_waker_steps]  poll stores the task waker in the SAME critical section in which it found the result missing and returns
                         Pending; signal sets the result, takes the stored waker and calls it (single-step facts);
      detached / dropped / never polled futures: the job is owned by the queue and runs: PropsC06.C06_terminal_partial_L2.
-   MISSING ([C07_complete_full], Main.v, only stated): "the awaiting task is always woken" as a global statement (every caller has
-   finished in a terminal state).  The invariant for it (Task.task_ok) is written down and holds on all simulated runs; two of its three clauses are proved
-   ([C07_task_parts]), the third (Task.tw_ok) is not.
-   The signaller's Drop (Canceled) is not modelled: a queued job is never dropped in this model. *)
-From L2 Require Import Model Fut Sig Task TaskInv Term Main.
+     [C07_task_invariant] / [C07_complete_full]  the awaiting task is always woken: the first await frame of every stack carries its
+                        wake-up guarantee (token, pending unpark / task-waker call, or waker stored while the result is missing and the
+                        signalling job still exists); hence, with >= 1 pool runner, in a terminal state with all events fired every
+                        caller has finished its script;
+     [C07_full]         the conjunction of all of the above.
+   The signaller's Drop (Canceled) is not modelled: a queued job is never dropped in this model.  The zero-pool variant is C06's. *)
+From L2 Require Import Model Fut Sig Task TaskInv Term Complete Main.
 Theorem C07_safety_partial_L2 : C07_safety.
 Proof. exact C07_safety_main. Qed.
 Theorem C07_value_L2 : C07_value.
@@ -20,7 +22,15 @@ Theorem C07_waker_steps_L2 : C07_waker_steps.
 Proof. exact C07_waker_steps_main. Qed.
 Theorem C07_task_parts_L2 : C07_task_parts.
 Proof. exact C07_task_parts_main. Qed.
+Theorem C07_task_invariant_L2 : C07_task_invariant.
+Proof. exact C07_task_invariant_main. Qed.
+Theorem C07_complete_L2 : C07_complete_full.
+Proof. exact C07_complete_main. Qed.
+Theorem C07_full_L2 : C07_full.
+Proof. exact C07_full_main. Qed.
 Print Assumptions C07_safety_partial_L2.
 Print Assumptions C07_value_L2.
 Print Assumptions C07_waker_steps_L2.
 Print Assumptions C07_task_parts_L2.
+Print Assumptions C07_complete_L2.
+Print Assumptions C07_full_L2.
